@@ -279,6 +279,78 @@ def shape_obligations(repo, interp, it, g, k):
     return out
 
 
+def field_overlaps(ctx, repo, T, rule):
+    """Two items of one table whose bit fields share a bit: a write to one changes the other.  The tables as published
+    (baseline/pack_layout.json.gz, the commit the properties were written against) contain such pairs by design of the
+    pack definitions (aliases and overlaid fields); every pair involving a writable item that is NOT in the published
+    layout is a new way for a write to change another item."""
+    import gzip
+    import json
+    from ..core import VERIF
+    from ..packs import Item
+    bp = VERIF / "baseline" / "pack_layout.json.gz"
+    if not bp.exists():
+        raise AnalysisError("baseline/pack_layout.json.gz missing")
+    base = json.loads(gzip.open(bp).read())["modules"]
+
+    def bits_of(it):
+        try:
+            g = T.geometry(it)
+        except Exception:  # noqa: BLE001 - malformed items are C18's findings
+            return None
+        pos, ln = g.get("pos"), g.get("length")
+        if not isinstance(pos, int) or not isinstance(ln, int) or ln <= 0:
+            return None
+        if g.get("bitpos") is not None and g.get("bitmask") is not None:
+            mask = g["bitmask"] << g["bitpos"]
+        else:
+            mask = (1 << (8 * ln)) - 1
+        out = set()
+        for b in range(8 * ln):
+            if mask >> b & 1:
+                out.add((pos + ln - 1 - b // 8) * 8 + b % 8)   # big-endian word: bit b lives in byte pos+ln-1-b//8
+        return frozenset(out), g.get("read_write") is not None
+
+    def pairs(items):
+        by_byte = {}
+        fields = []
+        for it in items:
+            r = bits_of(it)
+            if r is None or not r[0]:
+                continue
+            idx = len(fields)
+            fields.append((it.key, r[0], r[1]))
+            for byte in {b // 8 for b in r[0]}:
+                by_byte.setdefault(byte, []).append(idx)
+        out = set()
+        for lst in by_byte.values():
+            for i in range(len(lst)):
+                for j in range(i + 1, len(lst)):
+                    a, b = fields[lst[i]], fields[lst[j]]
+                    if a[0] != b[0] and (a[2] or b[2]) and a[1] & b[1]:
+                        out.add(tuple(sorted((a[0], b[0]))))
+        return out
+    n_mod = n_pairs = n_base = 0
+    for stem, m in sorted(T.modules.items()):
+        bm = base.get(stem)
+        if bm is None:
+            continue   # a table published after the pin: its own overlaps are its published layout (C18 covers well-formedness)
+        n_mod += 1
+        cur = pairs(m.items)
+        was = pairs([Item(m, k, ctor, args, 0) for k, (ctor, args) in bm["items"].items()])
+        n_pairs += len(cur)
+        n_base += len(was)
+        for a, b in sorted(cur - was)[:6]:
+            ia, ib = m.item(a), m.item(b)
+            ctx.ob(rule, f"{stem}::{a}~{b}::fields-disjoint", False,
+                   f"{stem}: the fields of {a} and {b} now share at least one bit (they were disjoint in the published layout): writing one of them changes the value the other reads",
+                   f"{m.path}:{(ia or ib).lineno}", sample={"rule": rule, "module": stem, "items": [a, b]})
+    ctx.ob(rule, "no-new-field-overlap", True, "")
+    ctx.count(f"{rule}:modules compared with the published layout", n_mod)
+    ctx.count(f"{rule}:overlapping writable pairs (all published)", n_pairs)
+    ctx.floor(rule, "pinned modules compared for field overlap", n_mod, 100)
+
+
 def check(ctx):
     repo = Repo()
     T = tables(repo)
@@ -295,6 +367,8 @@ def check(ctx):
     ctx.rule("R9", "identical device writes on both paths: the blocking and the awaitable set-value callback, interpreted on a model connection with pairwise distinct pack type / config version / log version, each emit exactly one datagram, byte-identical to each other and to the command builder called with every field by parameter name")
     from ..writemodel import device_writes
     device_writes(ctx, repo, "R9")
+    ctx.rule("R10", "no other item changes: within one table, two items whose bit fields share a bit and of which one is writable exist only where the published layout (baseline pin of the audited commit) already has them - a table edit that widens a field into its neighbour, or moves an item onto another, makes a write change another item although every merge stays inside its own mask")
+    field_overlaps(ctx, repo, T, "R10")
     from ..cfg import cfg_of
     from ..pathrules import pass_through
     n_wt = 0
